@@ -188,12 +188,13 @@ structure Cfg where
   atomicWrite : Bool
   loadIsPerEntry : Bool        -- wave 3: `load_state` treats every listed file on its own (see `loadEntries`)
   replayOrderPreserved : Bool  -- wave 4: the restored log lists the steps in execution order (see `readLog`)
+  loadReadsCommitted : Bool    -- wave 6: a load reads the committed state file, never the temporary file (see `readT`)
 deriving DecidableEq, Repr
 
 /-- the two facts the restore of ONE instance relies on -/
 def Cfg.restoreOK (c : Cfg) : Bool := c.replayIsComplete && c.replayOrderPreserved
 
-def Cfg.good (c : Cfg) : Bool := c.replayIsComplete && c.loadIsPerEntry && c.replayOrderPreserved
+def Cfg.good (c : Cfg) : Bool := c.replayIsComplete && c.loadIsPerEntry && c.replayOrderPreserved && c.loadReadsCommitted
 
 /-! wave 4: `_replay_session` replays `settings_log` in dictionary order, so it relies on the adapter round trip
 (write + read) keeping the order of the log: decode ∘ encode preserves the order of the steps.  A writer that
@@ -290,6 +291,81 @@ def lazyDyn : Dyn (String × List (Time × String)) (List (Time × String)) :=
       let cst := match st with | [] => s.1 | (_, v) :: _ => v
       let memo := fillMemo cst s.2 (gridUpTo spec t)
       ((cst, memo), memo) }
+
+/-! ### wave 6: the temporary file of the atomic write, explicitly
+
+Persistent state of an instance = the committed state file `<id>.json` + possibly a temporary file `<id>.json.tmp`
+left by a write that died: `torn` (a non-empty strict prefix), `complete p` (everything written and synced, the
+rename did not happen), or nothing (the process died before the first character: an empty temporary file counts as
+none).  A completed write renames the temporary file away.  What the code on the clean tree does: `_load_instance`
+opens `<id>.json` only and `_load_state` lists names ending in `.json` only — a temporary file is NEVER read,
+complete or not (the request that was writing it was never answered; it is lost as a whole and retried).  Mechanism
+fact `loadReadsCommitted`; the defective variant ("the temporary file holds the latest step") reads a non-empty
+temporary file INSTEAD of the state file: a torn one does not parse, the load gives up, and the intact committed
+state is never consulted. -/
+
+inductive Tmp where
+  | torn
+  | complete (p : Persist)
+deriving DecidableEq, Repr
+
+inductive Cut where
+  | nothing      -- died before the first character
+  | prefix       -- died after ≥ 1 and before all characters
+  | all          -- everything written, not renamed
+deriving DecidableEq, Repr
+
+abbrev Tmps := Nat → Option Tmp
+
+def readT (c : Cfg) (s : Server σ) (t : Tmps) (id : Nat) : Option Persist :=
+  if c.loadReadsCommitted then readable s.files id
+  else match t id with
+    | some .torn => none
+    | some (.complete p) => some p
+    | none => readable s.files id
+
+def effT (c : Cfg) (d : Dyn σ ρ) (s : Server σ) (t : Tmps) (id : Nat) : Option (Inst σ) :=
+  match s.live id with
+  | some i => some i
+  | none => (readT c s t id).map (restoreC c d)
+
+def restartT (c : Cfg) (d : Dyn σ ρ) (s : Server σ) (t : Tmps) : Server σ :=
+  { s with live := fun id => (readT c s t id).map (restoreC c d) }
+
+/-- the configured server with the temporary files; `cut` says where a `crashInWrite` died -/
+def stepCT (c : Cfg) (d : Dyn σ ρ) (st : Server σ × Tmps) (oc : Op × Cut) : (Server σ × Tmps) × Resp ρ :=
+  let s := st.1
+  let t := st.2
+  match oc.1 with
+  | .start id spec =>
+    if s.used id then (st, .none)
+    else (({ s with live := upd s.live id (some (fresh d spec)), used := fun x => x = id || s.used x }, t), .none)
+  | .step id stg =>
+    match effT c d s t id with
+    | none => (st, .invalid)
+    | some i =>
+      let r := runStep d i stg
+      -- temporary file written, synced, renamed onto the state file: no temporary file is left
+      (({ s with live := upd s.live id (some r.1), files := upd s.files id (some (.ok (persist r.1))) }, upd t id none), r.2)
+  | .crash => ((restartT c d s t, t), .none)
+  | .damage id => ((restartT c d (damageFile s id) t, t), .none)
+  | .crashInWrite id stg =>
+    match effT c d s t id with
+    | none => ((restartT c d s t, t), .none)
+    | some i =>
+      if c.atomicWrite then
+        let t' : Tmps := match oc.2 with
+          | .nothing => upd t id none
+          | .prefix => upd t id (some .torn)
+          | .all => upd t id (some (.complete (persist (runStep d i stg).1)))
+        ((restartT c d s t', t'), .none)
+      else ((restartT c d { s with files := upd s.files id (some .torn) } t, t), .none)
+
+def runCT (c : Cfg) (d : Dyn σ ρ) : Server σ × Tmps → List (Op × Cut) → List (Resp ρ)
+  | _, [] => []
+  | st, oc :: ocs => (stepCT c d st oc).2 :: runCT c d (stepCT c d st oc).1 ocs
+
+def noTmps : Tmps := fun _ => none
 
 /-! ### wave 3: `ExternalStateAdapter.load_state` over the directory listing
 
